@@ -182,7 +182,10 @@ func (l *Lexer) nextInsideToken() token.Token {
 				break
 			}
 		}
-		tok = l.nextInsideToken()
+		// the token that follows the comment is complete as it is: falling
+		// through would stamp it a second time, with the line reached after
+		// reading it, and skip the character that follows it
+		return l.nextInsideToken()
 	case '[':
 		tok = l.newToken(token.LBRACKET)
 	case ']':
